@@ -43,6 +43,8 @@ pub struct XCfg {
     pub send_fail_at: Option<usize>,
     /// the forced ERROR (error_at) carries a NUL-terminated message that is not UTF-8 (a Latin-1 byte): still an ERROR
     pub error_latin1: bool,
+    /// error number carried by the forced ERROR (0..7)
+    pub error_code: u16,
 }
 
 impl XCfg {
@@ -50,7 +52,7 @@ impl XCfg {
         json!({"role": if self.role == Role::Sender { "sender" } else { "receiver" }, "blk": self.blk, "ws": self.ws, "len": self.len,
                "handshake": self.handshake, "timeout_s": self.timeout_s, "repeat": self.repeat, "clean": self.clean, "alpha": self.alpha,
                "silence_after": self.silence_after, "error_at": self.error_at, "ack_every_copy": self.ack_every_copy, "snapshot_tail": self.snapshot_tail,
-               "noise": self.noise.map(|(a, k, n)| vec![a as u64, k as u64, n as u64]), "noise_resume": self.noise_resume, "send_fail_at": self.send_fail_at, "error_latin1": self.error_latin1})
+               "noise": self.noise.map(|(a, k, n)| vec![a as u64, k as u64, n as u64]), "noise_resume": self.noise_resume, "send_fail_at": self.send_fail_at, "error_latin1": self.error_latin1, "error_code": self.error_code})
     }
     pub fn from_json(v: &Value) -> XCfg {
         XCfg {
@@ -71,6 +73,7 @@ impl XCfg {
             noise_resume: v["noise_resume"].as_bool().unwrap_or(false),
             send_fail_at: v["send_fail_at"].as_u64().map(|x| x as usize),
             error_latin1: v["error_latin1"].as_bool().unwrap_or(false),
+            error_code: v["error_code"].as_u64().unwrap_or(0) as u16,
         }
     }
     pub fn timeout_ns(&self) -> u64 {
@@ -443,7 +446,7 @@ pub fn run(cfg: &XCfg, prefix: &[u16]) -> Trace {
                     ans = Answer::Timeout;
                     ch.choose(&[0], &|_| "Timeout(silence)".into());
                 } else if cfg.error_at == Some(answers) {
-                    ans = if cfg.error_latin1 { pkt(vec![0, 5, 0, 0, b'a', 0xE9, b'r', 0], 0) } else { pkt(rc::error(0, "abort"), 0) };
+                    ans = if cfg.error_latin1 { pkt(vec![0, 5, 0, cfg.error_code as u8, b'a', 0xE9, b'r', 0], 0) } else { pkt(rc::error(cfg.error_code, "abort"), 0) };
                     ch.choose(&[0], &|_| "Error(forced)".into());
                 } else if cfg.ack_every_copy && cfg.repeat > 1 {
                     // a peer that answers every copy: answers the k-th copy of the last burst in turn
